@@ -538,3 +538,25 @@ _upd("C01", "The round trip is proved for every list of well-formed requests of 
      "Open: model-refines-strict-decoder theorem (checked per case).",
      "Open: field-line spellings other than 'name: value' (no/several blanks, HTAB, obs-fold), which are compared modulo whitespace per case; "
      "trailer sections that differ from their declaration.")
+_upd("C01", "The round trip is proved for every field-line spelling the strict decoder accepts - any optional whitespace (SP / HTAB) around "
+     "the value, obs-fold lines, header and trailer section - and for empty lines before a request (serve_roundtrip_ows, "
+     "serve_refines_spec_ows, serve_roundtrip_blank_lines); HTAB as optional whitespace was a defect found by this proof and repaired.",
+     "Open: field-line spellings other than 'name: value' (no/several blanks, HTAB, obs-fold), which are compared modulo whitespace per case; "
+     "trailer sections that differ from their declaration.",
+     "Open: trailer sections that differ from their declaration, other spellings of the Trailer declaration.")
+_upd("C04", "The whole message computed from the model (header model on a dump of the real header object + body framing) is compared byte "
+     "for byte with the real wire on every case; handler programs also set Content-Length / Transfer-Encoding explicitly and answer "
+     "through the resetting helper AbortWithMsg.")
+_upd("C11", "Also proved: bodiless statuses, answers to HEAD (SkipBody is part of the reader model and of the respread op) and "
+     "read-until-close responses round-trip (response_roundtrip_bodiless, _HEAD, _until_close).")
+_upd("C14", "Obs-folded trailer lines are covered too (chunked_resync_exact_folded).")
+_upd("C17", "Agreement with net/url is proved (args_agree_std): a Lean model of url.ParseQuery, compared with the real net/url on every "
+     "case, and for every string it accepts hertz's parse equals its result minus pairs with both key and value empty.",
+     "agreement with net/url and cookie expiry (Go's time formatting) are compared, not proved.",
+     "cookie expiry (Go's time formatting) is compared, not proved; that the Lean model of url.ParseQuery is net/url rests on the per-case comparison.")
+_upd("C18", "run_satisfies_spec: all nine clauses of the trace specification hold of every model run under explicit hypotheses; the spec "
+     "predicate was repaired in four situations where it rejected legitimate runs, and a ninth clause (no request started on a "
+     "connection after an early successful return) was added.",
+     "Open: the spurious-close, hooks-run, bounded and prompt clauses of the trace spec for model runs; liveness under fairness.",
+     "Open: 'the driver accepts a trace' does not yet imply 'some model run has exactly this projection incl. time stamps'; the clock "
+     "discipline idealises the scheduler (the 1 s slack stands for it); liveness under fairness.")
